@@ -15,6 +15,7 @@ EXPLANATION = (
     "one Jacobian per iteration used in both places), the termination conjunction and iteration counter, truthfulness of the "
     "State records and of the reported statistics, and the wiring of mean / Cholesky factor / start value into the solver "
     "and of the returned point into the dense residual linearisation and jetexpand_residual."
+    "  The continuation condition is read semantically: simplified under i == 0 it may only contain the budget (the first Gauss-Newton step is always taken, so a feasible but non-optimal start cannot be returned unchanged), simplified under i >= 1 its conjuncts are exactly {constraint tolerance, budget, increment}."
 )
 LEVEL = "other"
 TECHNIQUE = "abstract interpretation over the AST: value-numbering with affine normal form, provenance/identity of record fields, inductive check of the while-loop state"
